@@ -629,7 +629,7 @@ def clause_ragged(repo, chk):
     import ast
 
     from ..model import norm_text
-    PACKERS = {"reduce_sum", "reduce_mean", "reduce_max", "reduce_min", "stack", "convert_to_tensor", "constant", "sum", "array", "asarray", "concat_as_tensor"}
+    PACKERS = {"reduce_sum", "reduce_mean", "reduce_max", "reduce_min", "stack", "convert_to_tensor", "constant", "sum", "array", "asarray"}
     chk.rule("B-ragged", "in every nll_grad_batch under tf_pwa/model/ (called by FCN with lists of per-batch tensors for data, mcdata, weight, mc_weight) no batched parameter - nor a local made from it by list(...) - is handed whole to a call that packs its argument into one tensor (tf.reduce_sum, tf.stack, tf.convert_to_tensor, np.sum, np.array ...): batches of unequal length cannot be packed, so the NLL could not be evaluated for a batch size that does not divide the sample; per-batch reduction (`[tf.reduce_sum(i) for i in weight]`) is the accepted idiom")
     n = 0
     for rel, m in sorted(repo.mods.items()):
@@ -644,8 +644,30 @@ def clause_ragged(repo, chk):
             for st in ast.walk(f.node):
                 if isinstance(st, ast.Assign) and len(st.targets) == 1 and isinstance(st.targets[0], ast.Name) and isinstance(st.value, ast.Call) and isinstance(st.value.func, ast.Name) and st.value.func.id in ("list", "tuple") and len(st.value.args) == 1 and isinstance(st.value.args[0], ast.Name) and st.value.args[0].id in batched:
                     batched.add(st.targets[0].id)
+            # a name that is rebound to anything else (tf.concat(weight, 0), a flattened tensor ...) is no longer known
+            # to be a list of batches
+            for st in ast.walk(f.node):
+                tgts = st.targets if isinstance(st, ast.Assign) else [st.target] if isinstance(st, (ast.AugAssign, ast.AnnAssign)) else []
+                for t in tgts:
+                    for nm in ast.walk(t):
+                        if isinstance(nm, ast.Name) and nm.id in batched:
+                            v = getattr(st, "value", None)
+                            keeps = isinstance(st, ast.Assign) and isinstance(v, ast.Call) and isinstance(v.func, ast.Name) and v.func.id in ("list", "tuple") and len(v.args) == 1 and isinstance(v.args[0], ast.Name) and v.args[0].id in batched
+                            if not keeps:
+                                batched.discard(nm.id)
             hits = []
+            # nested functions / lambdas have their own parameters: a name that shadows a batched parameter there is
+            # another variable
+            shadow = set()
             for c in ast.walk(f.node):
+                if c is not f.node and isinstance(c, (ast.FunctionDef, ast.Lambda)):
+                    inner = {a_.arg for a_ in c.args.posonlyargs + c.args.args + c.args.kwonlyargs}
+                    if inner & batched:
+                        for x in ast.walk(c):
+                            shadow.add(id(x))
+            for c in ast.walk(f.node):
+                if id(c) in shadow:
+                    continue
                 if isinstance(c, ast.Call) and isinstance(c.func, ast.Attribute) and c.func.attr in PACKERS and c.args and isinstance(c.args[0], ast.Name) and c.args[0].id in batched:
                     root = norm_text(c.func).split(".")[0]
                     if root in ("tf", "np", "numpy", "tensorflow"):
@@ -661,6 +683,9 @@ def run(repo, chk, tier):
     from ..cacheown import check_persistent_state
 
     clause_ragged(repo, chk)
+    from .c06_formula import check_nll_formula
+
+    check_nll_formula(repo, chk)
 
     check_persistent_state(repo, chk, ["tf_pwa/model/"])
     from ..cacheown import check_mutable_defaults
